@@ -9,10 +9,11 @@
   (input, answer) pairs in position-set semantics; the same predicate is evaluated on the answers of the real library
   by the check.  `ans` turns a result into the observable answer (`some v` / `none` = raised).
 
-  Two corners of the current code deviate from the property and are recorded as findings; the theorems exclude exactly
+  One corner of the current code deviates from the property and is recorded as a finding; the theorems exclude exactly
   those inputs and a `decide`d witness shows that the modelled code deviates there:
     * `EmptyArgQuirk a b ms`   (F-C02c)  receiver without parent, EmptyLocation argument, match_strand=True
-    * `OneSidedParent a b`     (F-C19j)  union with a parent-less receiver and an argument that has a parent
+  F-C19j (one-sided parent test of `union` / `union_preserve_overlaps`) is repaired in the code (`fix:` 7aedbe9); the
+  union theorems hold without exclusion and `union_oneSided_refused` keeps the old failing input as a regression fact.
 -/
 import BioCantor.Proofs.AlgOverlap
 import BioCantor.Proofs.AlgIntersect
@@ -93,36 +94,30 @@ theorem gapList_spec (a : PLoc) (ha : WFP a) : okGapList a (ans (gapListP a)) = 
 
 /-- T3: the union covers exactly the positions of either operand, keeps strand and parent, is well formed and inside
     the parent's sequence; it is refused exactly for EmptyLocation operands, different strands and incompatible
-    parents. All layouts and shapes (single/compound in either order, compound ∪ compound through the sorted
-    block-by-block merge). Outside F-C19j. -/
-theorem union_spec (a b : PLoc) (ha : WFP a) (hb : WFP b) (hj : ¬ OneSidedParent a b) :
+    parents (in either order). All layouts and shapes (single/compound in either order, compound ∪ compound through
+    the sorted block-by-block merge). -/
+theorem union_spec (a b : PLoc) (ha : WFP a) (hb : WFP b) :
     okUnion a b (ans (unionP a b)) = true :=
-  unionP_ok a b ha hb hj
+  unionP_ok a b ha hb
 
 /-- T3 (disjointness): operands that are not self-overlapping give a union whose blocks do not overlap. -/
-theorem union_disjoint (a b : PLoc) (ha : WFP a) (hb : WFP b) (hj : ¬ OneSidedParent a b) :
+theorem union_disjoint (a b : PLoc) (ha : WFP a) (hb : WFP b) :
     okUnionDisjoint a b (ans (unionP a b)) = true :=
-  unionP_disjoint a b ha hb hj
+  unionP_disjoint a b ha hb
 
-/-- F-C19j witness: with a parent-less receiver the modelled code combines locations of different parents (and
-    leaves the overlapping blocks unmerged) although the property demands a refusal. -/
-theorem union_oneSided_deviates :
-    okUnion (.single (0, 5) .plus, []) (.single (3, 8) .plus, [(some "b", none, none)])
-      (ans (unionP (.single (0, 5) .plus, []) (.single (3, 8) .plus, [(some "b", none, none)]))) = false := by
-  have hs : sortBlocks .plus [((0, 5) : Blk), (3, 8)] = [(0, 5), (3, 8)] :=
-    sortBlocks_of_fst_lt .plus (by simp)
-  have h : unionP (.single (0, 5) .plus, []) (.single (3, 8) .plus, [(some "b", none, none)])
-      = .ok (.compound ⟨[(0, 5), (3, 8)], .plus⟩, []) := by
-    simp [unionP, unionWithSingle, locStrand, unionSS, parentGate, parentId, pinfoId, Blk.len, mkCompound,
-      mkCompoundLoc, hs, blocksValid, withPar, bind, Except.bind, pure, Except.pure]
-  rw [h]
+/-- F-C19j regression: before the repair a parent-less receiver was combined with a location on any parent (and the
+    overlapping blocks were left unmerged); the repaired code refuses, in both orders. -/
+theorem union_oneSided_refused :
+    ans (unionP (.single (0, 5) .plus, []) (.single (3, 8) .plus, [(some "b", none, none)])) = none ∧
+    ans (unionP (.single (3, 8) .plus, [(some "b", none, none)]) (.single (0, 5) .plus, [])) = none ∧
+    ans (unionPreserveP (.single (0, 5) .plus, []) (.single (3, 8) .plus, [(some "b", none, none)])) = none := by
   decide
 
 /-- T3': `union_preserve_overlaps` keeps the multiset of covered positions of both operands together, drops empty
     blocks, and is in normal form when the blocks of both operands together do not overlap; refusals as for union. -/
-theorem unionPreserve_spec (a b : PLoc) (ha : WFP a) (hb : WFP b) (hj : ¬ OneSidedParent a b) :
+theorem unionPreserve_spec (a b : PLoc) (ha : WFP a) (hb : WFP b) :
     okUnionPreserve a b (ans (unionPreserveP a b)) = true :=
-  unionPreserveP_ok a b ha hb hj
+  unionPreserveP_ok a b ha hb
 
 /-- T7c: `merge_overlapping` returns a location that is not self-overlapping unchanged, and otherwise one with the
     same covered set whose blocks do not overlap. -/
@@ -176,7 +171,5 @@ theorem shift_spec (a : PLoc) (ha : WFP a) (k : Int) : okShift a k (ans (shiftP 
 example : WFP (.compound ⟨[(0, 5), (2, 3), (5, 7), (5, 5)], .minus⟩,
     [(some "chrA", none, some ['A', 'C', 'G', 'T', 'A', 'C', 'G']), (some "g1", none, none)]) := by decide
 example : ¬ EmptyArgQuirk (.single (0, 5) .plus, [(some "chrA", none, none)]) (.empty, []) true := by decide
-example : ¬ OneSidedParent (.single (0, 5) .plus, [(some "chrA", none, none)])
-    (.compound ⟨[(1, 2), (4, 4)], .plus⟩, [(some "chrA", none, none), (some "g", none, none)]) := by decide
 
 end BioCantor.Props.C02
